@@ -627,19 +627,19 @@ pub fn execute(plan: &Plan, ctx: &mut Ctx) {
                 let e = er_of(op.arg(1) as u8);
                 script.f[i] = Out::Err(e);
                 rig.lf[i].set(Err(e.to_rrtk()));
-                ctx.count(if op.arg(1) == 1 { "fault.err1" } else { "fault.err2" });
+                ctx.count(match op.arg(1) { 1 => "fault.err1", 3 => "fault.err_from_none", _ => "fault.err2" });
             }
             "LBE" if i < NB => {
                 let e = er_of(op.arg(1) as u8);
                 script.b[i] = Out::Err(e);
                 rig.lb[i].set(Err(e.to_rrtk()));
-                ctx.count(if op.arg(1) == 1 { "fault.err1" } else { "fault.err2" });
+                ctx.count(match op.arg(1) { 1 => "fault.err1", 3 => "fault.err_from_none", _ => "fault.err2" });
             }
             "LQE" if i < NQ => {
                 let e = er_of(op.arg(1) as u8);
                 script.q[i] = Out::Err(e);
                 rig.lq[i].set(Err(e.to_rrtk()));
-                ctx.count(if op.arg(1) == 1 { "fault.err1" } else { "fault.err2" });
+                ctx.count(match op.arg(1) { 1 => "fault.err1", 3 => "fault.err_from_none", _ => "fault.err2" });
             }
             "CK" if i < NC => {
                 script.ck[i] = Ok(op.arg(1));
